@@ -12,10 +12,12 @@ func init() {
 		Runs: []HarnessRun{
 			{Pkg: "wire", Entry: "VerifH17", What: "every decoration reaches its field as text, outermost wins, each field at most once",
 				Quick: map[string]int{"D": 2}, Thorough: map[string]int{"D": 3},
-				Witnesses: []string{"source-decorated", "hint-and-detail", "constraint"}},
+				Witnesses: []string{"source-decorated", "hint-and-detail", "constraint", "empty-message"}},
 			{Pkg: "wire", Entry: "VerifH17", What: "same with payloads that may be long (300 concrete bytes + one symbolic byte: every length threshold up to 301 is crossed) and the largest line number",
 				Quick: map[string]int{"D": 1, "LONG": 300}, Thorough: map[string]int{"D": 2, "LONG": 300},
 				Witnesses: []string{"long-payload", "source-decorated", "constraint"}},
+			{Pkg: "wire", Entry: "VerifH17m", What: "decorating never changes the error it is given: after X(X(base,a),b) the inner error still carries a, for every decorator",
+				Quick: map[string]int{}, Witnesses: []string{"detail-twice"}},
 			{Pkg: "wire", Entry: "VerifH17n", What: "nil error -> FATAL / XX000 with a message",
 				Quick: map[string]int{}, Witnesses: []string{"nil-error"}},
 		},
